@@ -86,6 +86,7 @@ fn check_tables(rep: &mut Rep, cfg: &Cfg, tab: &[(i64, i64)]) {
                     }
                 }
             }
+            check_provider_iter(rep, &LatestLeapSeconds::default, &fwd, "LatestLeapSeconds");
             for w in fwd.windows(2) {
                 if !(w[0].timestamp_tai_s < w[1].timestamp_tai_s) {
                     rep.fail("table/not-sorted", None, || format!("{:?} then {:?}", w[0], w[1]));
@@ -94,6 +95,123 @@ fn check_tables(rep: &mut Rep, cfg: &Cfg, tab: &[(i64, i64)]) {
             for l in fwd.iter().filter(|l| !l.announced_by_iers) {
                 if l.timestamp_tai_s >= tab[0].0 as f64 {
                     rep.fail("table/non-iers-entry-after-1972", None, || format!("{:?}", l));
+                }
+            }
+        }
+    }
+}
+
+/// A leap-second provider is an iterator over its table: whatever std consumer reads it, from whatever position, in
+/// either single direction, sees exactly the entries that are left - and a copy taken on the way continues from where the
+/// original stands without disturbing it. (Mixing `next` and `next_back` on one value is left open: the implementation
+/// shares one cursor between the two ends.) `truth` is the table as a plain forward read of a fresh provider gave it.
+fn check_provider_iter<P>(rep: &mut Rep, mk: &dyn Fn() -> P, truth: &[LeapSecond], name: &str)
+where
+    P: Iterator<Item = LeapSecond> + DoubleEndedIterator + Clone,
+{
+    let n = truth.len();
+    let mut ks = vec![0usize, 1, 2, 3, n / 2, n.saturating_sub(2), n.saturating_sub(1), n, n + 1];
+    ks.sort_unstable();
+    ks.dedup();
+    for &k in &ks {
+        if !rep.tick() {
+            continue;
+        }
+        rep.class("table/iterator-consumers");
+        let left: Vec<LeapSecond> = truth[k.min(n)..].to_vec();
+        let mut back: Vec<LeapSecond> = truth[..n - k.min(n)].to_vec();
+        back.reverse();
+        let r = guard(|| {
+            let fwd = || {
+                let mut it = mk();
+                for _ in 0..k {
+                    let _ = it.next();
+                }
+                it
+            };
+            let bwd = || {
+                let mut it = mk().rev();
+                for _ in 0..k {
+                    let _ = it.next();
+                }
+                it
+            };
+            let bad: std::cell::RefCell<Vec<String>> = std::cell::RefCell::new(vec![]);
+            let want_eq = |what: &str, got: Vec<LeapSecond>, want: Vec<LeapSecond>| {
+                if got != want {
+                    bad.borrow_mut().push(format!("{what}: {} items (first {:?}) want {} (first {:?})", got.len(), got.first().map(|l| l.delta_at), want.len(), want.first().map(|l| l.delta_at)));
+                }
+            };
+            // forward
+            want_eq("collect", fwd().collect(), left.clone());
+            want_eq("last", fwd().last().into_iter().collect(), left.last().copied().into_iter().collect());
+            want_eq("count", vec![], if fwd().count() == left.len() { vec![] } else { left.clone() });
+            for j in [0usize, 1, 2, 5] {
+                want_eq(&format!("nth({j})"), fwd().nth(j).into_iter().collect(), left.get(j).copied().into_iter().collect());
+                want_eq(&format!("skip({j})"), fwd().skip(j).collect(), left.iter().skip(j).copied().collect());
+                want_eq(&format!("step_by({})", j + 1), fwd().step_by(j + 1).collect(), left.iter().step_by(j + 1).copied().collect());
+                want_eq(&format!("take({j})"), fwd().take(j).collect(), left.iter().take(j).copied().collect());
+                let mut it = fwd();
+                let a = it.nth(j);
+                let b = it.nth(j);
+                want_eq(&format!("nth({j}) twice"), a.into_iter().chain(b).collect(), left.get(j).copied().into_iter().chain(left.get(2 * j + 1).copied()).collect());
+            }
+            want_eq("fold", fwd().fold(vec![], |mut v, l| { v.push(l); v }), left.clone());
+            want_eq("filter", fwd().filter(|l| l.announced_by_iers).collect(), left.iter().filter(|l| l.announced_by_iers).copied().collect());
+            want_eq("find", fwd().find(|l| l.delta_at > 20.0).into_iter().collect(), left.iter().find(|l| l.delta_at > 20.0).copied().into_iter().collect());
+            want_eq("max_by", fwd().max_by(|a, b| a.delta_at.total_cmp(&b.delta_at)).into_iter().collect(), left.iter().copied().max_by(|a, b| a.delta_at.total_cmp(&b.delta_at)).into_iter().collect());
+            want_eq("min_by", fwd().min_by(|a, b| a.delta_at.total_cmp(&b.delta_at)).into_iter().collect(), left.iter().copied().min_by(|a, b| a.delta_at.total_cmp(&b.delta_at)).into_iter().collect());
+            want_eq("zip", fwd().zip(0..).map(|(l, _)| l).collect(), left.clone());
+            want_eq("chain", fwd().chain(fwd()).collect(), left.iter().chain(left.iter()).copied().collect());
+            want_eq("peekable", { let mut p = fwd().peekable(); let _ = p.peek(); p.collect() }, left.clone());
+            want_eq("fuse past the end", { let mut f = fwd().fuse(); let v: Vec<_> = f.by_ref().collect(); let _ = f.next(); let mut v2 = v; v2.extend(f.next()); v2 }, left.clone());
+            want_eq("by_ref().take(2) then the rest", { let mut it = fwd(); let mut v: Vec<_> = it.by_ref().take(2).collect(); v.extend(it); v }, left.clone());
+            let (lo, hi) = fwd().size_hint();
+            if lo > left.len() || hi.map_or(false, |h| h < left.len()) {
+                bad.borrow_mut().push(format!("size_hint ({lo}, {:?}) with {} items left", hi, left.len()));
+            }
+            // a copy taken on the way
+            {
+                let mut it = fwd();
+                let c1 = it.clone();
+                let first = it.next();
+                let c2 = it.clone();
+                want_eq("clone().collect()", c1.collect(), left.clone());
+                want_eq("clone() after one more step", c2.collect(), left.iter().skip(1).copied().collect());
+                want_eq("the original after its copies were read", first.into_iter().chain(it).collect(), left.clone());
+                want_eq("clone().next() as a peek", { let it = fwd(); let p = it.clone().next(); p.into_iter().chain(it).collect() }, left.first().copied().into_iter().chain(left.iter().copied()).collect());
+            }
+            // one direction only: from the newest entry backwards
+            want_eq("rev().collect", bwd().collect(), back.clone());
+            want_eq("rev().last", bwd().last().into_iter().collect(), back.last().copied().into_iter().collect());
+            want_eq("rev().count", vec![], if bwd().count() == back.len() { vec![] } else { back.clone() });
+            for j in [0usize, 1, 2, 5] {
+                want_eq(&format!("rev().nth({j})"), bwd().nth(j).into_iter().collect(), back.get(j).copied().into_iter().collect());
+                want_eq(&format!("rev().skip({j})"), bwd().skip(j).collect(), back.iter().skip(j).copied().collect());
+                want_eq(&format!("rev().step_by({})", j + 1), bwd().step_by(j + 1).collect(), back.iter().step_by(j + 1).copied().collect());
+                let mut it = bwd();
+                let a = it.nth(j);
+                let b = it.nth(j);
+                want_eq(&format!("rev().nth({j}) twice"), a.into_iter().chain(b).collect(), back.get(j).copied().into_iter().chain(back.get(2 * j + 1).copied()).collect());
+                // the same through the DoubleEndedIterator methods of the provider itself
+                let mut p = mk();
+                for _ in 0..k {
+                    let _ = p.next_back();
+                }
+                let a = p.nth_back(j);
+                let b = p.nth_back(j);
+                want_eq(&format!("nth_back({j}) twice"), a.into_iter().chain(b).collect(), back.get(j).copied().into_iter().chain(back.get(2 * j + 1).copied()).collect());
+            }
+            want_eq("rfold", { let mut p = mk(); for _ in 0..k { let _ = p.next_back(); } p.rfold(vec![], |mut v, l| { v.push(l); v }) }, back.clone());
+            want_eq("rfind", { let mut p = mk(); for _ in 0..k { let _ = p.next_back(); } p.rfind(|l| l.delta_at < 20.0).into_iter().collect() }, back.iter().find(|l| l.delta_at < 20.0).copied().into_iter().collect());
+            want_eq("rev().clone()", { let it = bwd(); let c = it.clone(); let _ = it.count(); c.collect() }, back.clone());
+            bad.into_inner()
+        });
+        match r {
+            Err(p) => rep.fail(&format!("table/panic/{}", p.class()), None, || format!("{name}: consumers of the provider's iterator after {k} steps panicked: {} at {}", p.msg, p.loc)),
+            Ok(bad) => {
+                if !bad.is_empty() {
+                    rep.fail("table/iterator-consumer", None, || format!("{name} after {k} steps: {}", bad.join("; ")));
                 }
             }
         }
@@ -154,6 +272,9 @@ fn check_file(rep: &mut Rep, path: &std::path::Path, want: &[(i64, i64)], class:
                         }
                     }
                 }
+            }
+            if fwd == idx {
+                check_provider_iter(rep, &|| f.clone(), &fwd, &format!("provider of {}", path.display()));
             }
             if fwd.len() != want.len() || !fwd.iter().zip(want.iter()).all(|(a, b)| ls_eq(a, b.0, b.1, true)) {
                 rep.fail("file/entries", None, || format!("from_path({}) yields {:?} ; want {:?}", path.display(), fwd, want));
